@@ -91,6 +91,34 @@ def prime_factor_counts(arr):
 # ============================================================================
 
 
+@numba.jit(nopython=True, cache=True)
+def _sfs_order(local, sums_buf, n, dv):
+    """
+    Order rows for SFS so that every row comes after all rows that dominate it: by row
+    sum, with ties (absorption in rounded sums, infinities) broken lexicographically by
+    column. Entries are clamped to +-1e30 in the sum so that it is never inf - inf.
+    """
+    for i in range(n):
+        s = 0.0
+        for kk in range(dv):
+            v = local[i, kk]
+            if v > 1e30:
+                v = 1e30
+            elif v < -1e30:
+                v = -1e30
+            s += v
+        sums_buf[i] = s
+    order = np.argsort(sums_buf[:n], kind="mergesort")
+    for i in range(1, n):
+        if sums_buf[order[i]] == sums_buf[order[i - 1]]:
+            order = np.arange(n)
+            for kk in range(dv - 1, -1, -1):
+                order = order[np.argsort(local[:n, kk][order], kind="mergesort")]
+            order = order[np.argsort(sums_buf[:n][order], kind="mergesort")]
+            break
+    return order
+
+
 @numba.jit(nopython=True, fastmath=True, cache=True)
 def _sfs_bnl_core(data, sorted_idx, offsets, n_total_groups, result_mask):
     d = data.shape[1]
@@ -202,13 +230,7 @@ def _sfs_bnl_core(data, sorted_idx, offsets, n_total_groups, result_mask):
             continue
 
         # General case: SFS + block BNL (block size 16)
-        for i in range(n):
-            s = 0.0
-            for kk in range(dv):
-                s += local[i, kk]
-            sums_buf[i] = s
-
-        order = np.argsort(sums_buf[:n], kind="mergesort")
+        order = _sfs_order(local, sums_buf, n, dv)
 
         n_blk = (n >> 4) + 1
         for b in range(n_blk):
